@@ -10,6 +10,17 @@
 (* A data directory is a map  file name -> tensor; a file name is          *)
 (* prefix \o utterance \o suffix (sequences of characters), and a command  *)
 (* selects the files that START with the prefix and END with the suffix.   *)
+(* Prefix, suffix and the name of the directory are LITERAL strings: "[",  *)
+(* "]", "*", "?" stand for themselves (GlobNamings; a selection that read  *)
+(* them as a shell pattern is the deliberately wrong SelectsGlob of        *)
+(* CommandsMC, which the invariant Naming must reject).                    *)
+(* Utterances are ORDERED BY THEIR IDS, as strings (code point by code     *)
+(* point, a proper prefix first): "listed first / last by id" of the subset*)
+(* command, the tie-break of its length criteria and the ascending lists   *)
+(* the error-rate command merges all mean that order.  It is not the order *)
+(* of the file names: "r" < "r-a" but "r-a.pt" < "r.pt" (IdNamings; a      *)
+(* listing by file name is the deliberately wrong ListKeyFileName, which   *)
+(* SubOK and ErMergeOK must reject).                                       *)
 (* Every command is described by its list of work items; an item writes    *)
 (* files (when a worker Finishes it) and/or returns a triple that the      *)
 (* parent adds up (when it is Delivered).  The module is the product of    *)
@@ -32,8 +43,11 @@ EXTENDS TranscriptsOps, TLC, Json
 
 CONSTANTS
   Fams,
-  Namings,     \* set of [pre |-> chars, suf |-> chars]
-  UttNames,    \* sequence of utterance ids (chars), increasing as strings
+  Namings,     \* set of [pre |-> chars, suf |-> chars, utts |-> sequence of utterance ids (chars), dir |-> chars]:
+               \* prefix, suffix, the ids of the corpus (utterance i of a case is utts[i]) and the name of the directory
+               \* the case's directories live in (<<>>: directly in the scratch directory)
+  GlobNamings, \* namings whose prefix / suffix / directory hold the characters [ ] * ?  (conversion commands)
+  IdNamings,   \* namings under which the order of the ids differs from the order of the file names (subset, error rate)
   \* WorkerPool
   Cs, Ws, PModes, KeepHist,
   \* universes (sets defined in CommandsMC)
@@ -42,6 +56,7 @@ CONSTANTS
   CtmSet, CtmUtts, CtmShifts,
   TgSet, TgUtts, TgShifts,
   ErPairs, ErPairsSmall, ErPairsTiny, ErCostsAll, ErBatches,
+  ErMissUtts,  \* size of the corpora of which the reference or the hypothesis directory lacks utterances (--warn-missing)
   SubLens, SubUtts,
   SubRunData, SubRunCrits, SubRunStyles, SubRunMax,   \* corpus (lengths), criteria, link styles, max number of runs
   SubRunFault,   \* TRUE: the deliberately wrong writer that leaves an existing destination file alone
@@ -66,20 +81,69 @@ ED == INSTANCE EditDistance WITH MaxR <- 0, MaxH <- 0, Tokens <- {}, CostSet <- 
 (***************************************************************************)
 (* File names and selection                                                *)
 (***************************************************************************)
-Name(nm, i) == nm.pre \o UttNames[i] \o nm.suf
+Name(nm, i) == nm.pre \o nm.utts[i] \o nm.suf
 StartsWith(f, p) == Len(f) >= Len(p) /\ SubSeq(f, 1, Len(p)) = p
 EndsWith(f, s) == Len(f) >= Len(s) /\ SubSeq(f, Len(f) - Len(s) + 1, Len(f)) = s
 Selects(nm, f) == StartsWith(f, nm.pre) /\ EndsWith(f, nm.suf)
 UttOf(nm, f) == SubSeq(f, Len(nm.pre) + 1, Len(f) - Len(nm.suf))
+\* a string that a reading of s as a shell pattern would match although it is not s: "?" and "*" replaced by a letter, a
+\* bracketed class by its first member
+RECURSIVE Deglob(_)
+Deglob(s) ==
+  IF s = <<>> THEN <<>>
+  ELSE IF Head(s) \in {"?", "*"} THEN <<"z">> \o Deglob(Tail(s))
+  ELSE IF Head(s) = "[" /\ \E k \in 3..Len(s) : s[k] = "]"
+       THEN <<s[2]>> \o Deglob(SubSeq(s, 1 + MinOf({k \in 3..Len(s) : s[k] = "]"}), Len(s)))
+  ELSE <<Head(s)>> \o Deglob(Tail(s))
 \* files that sit in the input directory but do not belong to the data set
 Distractors(nm) ==
-  (IF nm.pre # <<>> THEN {<<"q">> \o UttNames[1] \o nm.suf} ELSE {})        \* lacks the prefix
-  \cup {nm.pre \o UttNames[2] \o <<".", "b", "a", "k">>}                       \* lacks the suffix
+  (IF nm.pre # <<>> THEN {<<"q">> \o nm.utts[1] \o nm.suf} ELSE {})        \* lacks the prefix
+  \cup {nm.pre \o nm.utts[2] \o <<".", "b", "a", "k">>}                       \* lacks the suffix
+  \cup (IF Deglob(nm.pre) # nm.pre \/ Deglob(nm.suf) # nm.suf                  \* matches prefix*suffix as a pattern only
+        THEN {Deglob(nm.pre) \o nm.utts[1] \o Deglob(nm.suf)} ELSE {})
 NonDefaultNaming == CHOOSE nm \in Namings : nm.pre # <<>> /\ \A o \in Namings : Len(o.suf) <= Len(nm.suf)
 NamesOK(nm, m) ==
   /\ \A i, j \in 1..m : i # j => Name(nm, i) # Name(nm, j)                     \* injective
-  /\ \A i \in 1..m : Selects(nm, Name(nm, i)) /\ UttOf(nm, Name(nm, i)) = UttNames[i]
+  /\ \A i \in 1..m : Selects(nm, Name(nm, i)) /\ UttOf(nm, Name(nm, i)) = nm.utts[i]
   /\ \A f \in Distractors(nm) : ~Selects(nm, f) /\ \A i \in 1..m : f # Name(nm, i)
+
+(***************************************************************************)
+(* The order of strings: code point by code point, a proper prefix first   *)
+(* (python's, and sort(1)'s in the C locale).  Printable ASCII.            *)
+(***************************************************************************)
+Printable == <<" ", "!", "\"", "#", "$", "%", "&", "'", "(", ")", "*", "+", ",", "-", ".", "/",
+               "0", "1", "2", "3", "4", "5", "6", "7", "8", "9", ":", ";", "<", "=", ">", "?", "@",
+               "A", "B", "C", "D", "E", "F", "G", "H", "I", "J", "K", "L", "M", "N", "O", "P", "Q", "R", "S", "T", "U", "V",
+               "W", "X", "Y", "Z", "[", "\\", "]", "^", "_", "`",
+               "a", "b", "c", "d", "e", "f", "g", "h", "i", "j", "k", "l", "m", "n", "o", "p", "q", "r", "s", "t", "u", "v",
+               "w", "x", "y", "z", "{", "|", "}", "~">>
+CodeTable == [ch \in {Printable[i] : i \in 1..Len(Printable)} |-> 31 + CHOOSE i \in 1..Len(Printable) : Printable[i] = ch]
+Codes(s) == [i \in 1..Len(s) |-> CodeTable[s[i]]]
+StrLess(a, b) == LexLess(Codes(a), Codes(b))
+\* the key by which a command lists the utterances of a directory: the id
+ListKey(nm, i) == Codes(nm.utts[i])
+\* the indices in S, ascending by key K
+SortedBy(nm, S, K(_, _)) ==
+  LET RECURSIVE F(_)
+      F(T) == IF T = {} THEN <<>>
+              ELSE LET x == CHOOSE y \in T : \A z \in T : ~LexLess(K(nm, z), K(nm, y)) IN <<x>> \o F(T \ {x})
+  IN F(S)
+IdKey(nm, i) == Codes(nm.utts[i])
+FileKey(nm, i) == Codes(Name(nm, i))
+\* Tables (constants: TLC computes them once per run): all utterances of a naming in the order of their ids, of their
+\* file names and of the commands' listing; the position of an utterance in the latter
+AllNamings == Namings \cup GlobNamings \cup IdNamings
+IdOrderT == [nm \in AllNamings |-> SortedBy(nm, 1..Len(nm.utts), IdKey)]
+FileOrderT == [nm \in AllNamings |-> SortedBy(nm, 1..Len(nm.utts), FileKey)]
+ListOrderT == [nm \in AllNamings |-> SortedBy(nm, 1..Len(nm.utts), ListKey)]
+ListPosT == [nm \in AllNamings |-> [i \in 1..Len(nm.utts) |-> CHOOSE k \in 1..Len(nm.utts) : ListOrderT[nm][k] = i]]
+Restrict(order, S) == SelectSeq(order, LAMBDA i : i \in S)        \* the members of S in that order
+\* position of utterance i among the m utterances of a directory as the commands list them
+ListRank(nm, m, i) == 1 + Cardinality({j \in 1..m : ListPosT[nm][j] < ListPosT[nm][i]})
+OrdersDiffer(nm) == IdOrderT[nm] # FileOrderT[nm]
+\* a function on 1..n as a sequence of VALUES (TLC keeps [i \in S |-> e] unevaluated and evaluates e at every application)
+RECURSIVE Strict(_, _)
+Strict(f, len) == IF len = 0 THEN <<>> ELSE Append(Strict(f, len - 1), f[len])
 
 (***************************************************************************)
 (* ali <-> ref                                                             *)
@@ -109,6 +173,7 @@ AliCorpora(S) == {<<a>> : a \in S} \cup UNION {[1..m -> AliSeqs2] : m \in 2..Ali
 AliCases ==
   IF "ali" \notin Fams THEN {}
   ELSE {[nm |-> nm, data |-> d] : nm \in Namings, d \in AliCorpora(AliSeqs)}
+       \cup {[nm |-> nm, data |-> d] : nm \in GlobNamings, d \in {<<a>> : a \in AliSeqs2} \cup [1..BigUtts -> AliTiny]}
 AliDistractor == <<2, 1, 1>>
 
 (***************************************************************************)
@@ -131,6 +196,7 @@ TrnCases ==
        \cup UNION {{[nm |-> nm, data |-> d, sizing |-> sz] :
                       d \in UNION {[1..m -> TrnSet] : m \in 2..TrnUtts} \cup [1..BigUtts -> TrnTiny],
                       sz \in {z \in Sizings : z = NamingSizing(nm)}} : nm \in Namings}
+       \cup {[nm |-> nm, data |-> d, sizing |-> NamingSizing(nm)] : nm \in GlobNamings, d \in [1..BigUtts -> TrnTiny]}
 TrnNeedsUnk(cs0) == \E i \in 1..Len(cs0.data) : \E k \in 1..Len(Leaves(cs0.data[i])) : Leaves(cs0.data[i])[k] = OOV
 TrnNeedsFirst(cs0) == \E i \in 1..Len(cs0.data) : HasAlt(cs0.data[i])
 
@@ -154,6 +220,8 @@ CtmCases ==
   ELSE UNION {{[nm |-> nm, data |-> d, shift |-> sh, kind |-> kd] :
                  d \in UNION {[1..m -> CtmSet] : m \in 1..CtmUtts} \cup [1..BigUtts -> CtmTiny],
                  sh \in CtmShifts, kd \in {k \in CtmKinds : nm = NonDefaultNaming \/ k = "default"}} : nm \in Namings}
+       \cup {[nm |-> nm, data |-> d, shift |-> sh, kind |-> "default"] :
+               nm \in GlobNamings, d \in [1..BigUtts -> CtmTiny], sh \in CtmShifts}
 \* TextGrid tiers: an interval tier whose entries all have positive length (method 1 of the writer
 \* command) or a point tier (method 2)
 TgKind(tr) == IF \A k \in 1..Len(tr) : tr[k].d = 0 THEN "point" ELSE "interval"
@@ -163,6 +231,8 @@ TgCases ==
        \cup UNION {{[nm |-> nm, data |-> d, shift |-> sh] :
                       d \in UNION {[1..m -> TgSet] : m \in 2..TgUtts} \cup [1..BigUtts -> TgTiny],
                       sh \in {z \in TgShifts : (z = MinOf(TgShifts)) = (nm.pre = <<>>)}} : nm \in Namings}
+       \cup {[nm |-> nm, data |-> d, shift |-> IF nm.pre = <<>> THEN MinOf(TgShifts) ELSE MaxOf(TgShifts)] :
+               nm \in GlobNamings, d \in [1..BigUtts -> TgTiny]}
 \* what the token directory -> TextGrid command writes for rows r (methods 1 and 2)
 TgMethod(rows) == IF \A k \in 1..Len(rows) : rows[k][3] > rows[k][2] THEN 1 ELSE 2
 TgBackRows(rows) ==
@@ -180,34 +250,61 @@ ErOptsAll == {[costs |-> co, bs |-> b, rep |-> rp, ign |-> ig, dist |-> di, peru
                 co \in ErCostsAll, b \in ErBatches, rp \in {<<>>, <<2, 1>>}, ig \in {{}, {2}},
                 di \in BOOLEAN, pu \in BOOLEAN}
 ErOptsFew == {o \in ErOptsAll : o.rep = <<>> /\ o.ign = {} /\ ~o.dist /\ ~o.perutt}
-ErCases ==     \* every pair alone; small corpora x every naming; tiny corpora x every option
+\* Which utterances a directory lacks.  The command is given --warn-missing ("warn and exclude any utterances that
+\* are missing either a reference or hypothesis transcript") exactly in the cases that carry warn = TRUE.
+ErNoMiss == [ref |-> {}, hyp |-> {}]
+ErMissPatterns(m) ==
+  {ErNoMiss, [ref |-> {1}, hyp |-> {m}]}
+  \cup {[ref |-> {k}, hyp |-> {}] : k \in 1..m} \cup {[ref |-> {}, hyp |-> {k}] : k \in 1..m}
+ErOptsMiss == {o \in ErOptsAll : o.rep = <<>> /\ o.ign = {} /\ ~o.dist /\ o.costs[1] = o.costs[2] /\ o.costs[2] = o.costs[3]}
+ErCases ==     \* every pair alone; small corpora x every naming; tiny corpora x every option; incomplete directories
   IF "er" \notin Fams THEN {}
-  ELSE {[nm |-> NonDefaultNaming, data |-> <<d>>, opt |-> o] : d \in ErPairs, o \in ErOptsFew}
-       \cup {[nm |-> nm, data |-> d, opt |-> o] : nm \in Namings, d \in [1..2 -> ErPairsSmall], o \in ErOptsFew}
-       \cup {[nm |-> NonDefaultNaming, data |-> d, opt |-> o] : d \in [1..2 -> ErPairsTiny], o \in ErOptsAll}
+  ELSE {[nm |-> NonDefaultNaming, data |-> <<d>>, opt |-> o, miss |-> ErNoMiss, warn |-> FALSE] : d \in ErPairs, o \in ErOptsFew}
+       \cup {[nm |-> nm, data |-> d, opt |-> o, miss |-> ErNoMiss, warn |-> FALSE] :
+               nm \in Namings, d \in [1..2 -> ErPairsSmall], o \in ErOptsFew}
+       \cup {[nm |-> NonDefaultNaming, data |-> d, opt |-> o, miss |-> ErNoMiss, warn |-> FALSE] :
+               d \in [1..2 -> ErPairsTiny], o \in ErOptsAll}
+       \cup {[nm |-> nm, data |-> d, opt |-> o, miss |-> ms, warn |-> TRUE] :
+               nm \in IdNamings, d \in {x \in [1..ErMissUtts -> ErPairsTiny] : \A i, j \in 1..ErMissUtts : i # j => x[i] # x[j]},
+               o \in ErOptsMiss, ms \in ErMissPatterns(ErMissUtts)}
 ErRef(cs0, i) == ApplyRI(cs0.data[i][1], cs0.opt.rep, cs0.opt.ign)
 ErHyp(cs0, i) == ApplyRI(cs0.data[i][2], cs0.opt.rep, cs0.opt.ign)
 ErRange(cs0, i) == ED!EditRange(ErRef(cs0, i), ErHyp(cs0, i), cs0.opt.costs)     \* <<fewest, most>> edits
 RECURSIVE SumSeq(_)
 SumSeq(s) == IF s = <<>> THEN 0 ELSE Head(s) + SumSeq(Tail(s))
-\* declarative totals
-ErTotLo(cs0) == SumSeq([i \in 1..Len(cs0.data) |-> ErRange(cs0, i)[1]])
-ErTotHi(cs0) == SumSeq([i \in 1..Len(cs0.data) |-> ErRange(cs0, i)[2]])
-ErTotLen(cs0) == SumSeq([i \in 1..Len(cs0.data) |-> Len(ErRef(cs0, i))])
-\* code-shaped: batches of bs utterances, running totals <<errs lo, errs hi, ref tokens>>
-RECURSIVE ErBatched(_, _, _)
-ErBatched(cs0, from, tot) ==
-  IF from > Len(cs0.data) THEN tot
-  ELSE LET to == IF from + cs0.opt.bs - 1 > Len(cs0.data) THEN Len(cs0.data) ELSE from + cs0.opt.bs - 1
-           batch == [j \in 1..(to - from + 1) |-> from + j - 1]
-       IN ErBatched(cs0, to + 1,
-                    <<tot[1] + SumSeq([j \in 1..Len(batch) |-> ErRange(cs0, batch[j])[1]]),
-                      tot[2] + SumSeq([j \in 1..Len(batch) |-> ErRange(cs0, batch[j])[2]]),
-                      tot[3] + SumSeq([j \in 1..Len(batch) |-> Len(ErRef(cs0, batch[j]))])>>)
+\* declarative: the utterances that count are those present in both directories
+ErBoth(cs0) == (1..Len(cs0.data)) \ (cs0.miss.ref \cup cs0.miss.hyp)
+\* code-shaped: each directory is listed (ascending by ListKey: the id); the two lists are walked in step and, where
+\* the ids at the current position differ, the entry with the SMALLER ID is taken to be in one directory only
+\* and dropped (warning); a list that ends early loses the rest of the other one
+DropAt(l, k) == SubSeq(l, 1, k - 1) \o SubSeq(l, k + 1, Len(l))
+RECURSIVE ErMerge(_, _, _, _)
+ErMerge(nm, r, h, k) ==
+  IF k > Len(r) /\ k > Len(h) THEN <<r, h>>
+  ELSE IF k > Len(r) THEN ErMerge(nm, r, DropAt(h, k), k)
+  ELSE IF k > Len(h) THEN ErMerge(nm, DropAt(r, k), h, k)
+  ELSE IF StrLess(nm.utts[r[k]], nm.utts[h[k]]) THEN ErMerge(nm, DropAt(r, k), h, k)
+  ELSE IF StrLess(nm.utts[h[k]], nm.utts[r[k]]) THEN ErMerge(nm, r, DropAt(h, k), k)
+  ELSE ErMerge(nm, r, h, k + 1)
+ErListed(cs0, sub) == Restrict(ListOrderT[cs0.nm], (1..Len(cs0.data)) \ cs0.miss[sub])
+ErKept(cs0) == ErMerge(cs0.nm, ErListed(cs0, "ref"), ErListed(cs0, "hyp"), 1)[1]      \* sequence of utterance indices
+\* per utterance: <<fewest edits, most edits, reference length>>
+ErFigures(cs0) == Strict([i \in 1..Len(cs0.data) |-> <<ErRange(cs0, i)[1], ErRange(cs0, i)[2], Len(ErRef(cs0, i))>>], Len(cs0.data))
+\* totals <<errs lo, errs hi, ref tokens>> over a sequence K of utterance indices, F = ErFigures
+ErTotals(K, F) == [col \in 1..3 |-> SumSeq([k \in 1..Len(K) |-> F[K[k]][col]])]
+\* declarative: the three sums over the SET of utterances in both directories
+ErDeclTotals(cs0, F) == ErTotals(Restrict(IdOrderT[cs0.nm], ErBoth(cs0)), F)
+\* code-shaped: batches of bs utterances of the kept list K, running totals
+RECURSIVE ErBatched(_, _, _, _, _)
+ErBatched(bs, K, F, from, tot) ==
+  IF from > Len(K) THEN tot
+  ELSE LET to == IF from + bs - 1 > Len(K) THEN Len(K) ELSE from + bs - 1
+           add == ErTotals(SubSeq(K, from, to), F)
+       IN ErBatched(bs, K, F, to + 1, <<tot[1] + add[1], tot[2] + add[2], tot[3] + add[3]>>)
 \* the figure is defined only if its denominator is not zero
-ErDefined(cs0) ==
-  IF cs0.opt.perutt THEN cs0.opt.dist \/ \A i \in 1..Len(cs0.data) : Len(ErRef(cs0, i)) > 0
-  ELSE cs0.opt.dist \/ ErTotLen(cs0) > 0
+ErDefined(cs0, F) ==
+  IF cs0.opt.perutt THEN cs0.opt.dist \/ \A i \in ErBoth(cs0) : F[i][3] > 0
+  ELSE (cs0.opt.dist /\ ErBoth(cs0) # {}) \/ ErDeclTotals(cs0, F)[3] > 0
 
 (***************************************************************************)
 (* subsets                                                                 *)
@@ -217,7 +314,7 @@ SubCrits ==
   \cup {[kind |-> k, num |-> x[1], den |-> x[2]] :
           k \in {"first-ratio", "last-ratio", "shortest-ratio", "longest-ratio"}, x \in {<<0, 1>>, <<1, 2>>, <<3, 4>>, <<1, 1>>}}
   \cup {[kind |-> "utt-list", num |-> x, den |-> 1] : x \in 0..3}
-\* explicit lists (indices into UttNames; SubUtts + 1 is an id that is not in the directory)
+\* explicit lists (indices into the naming's utts; SubUtts + 1 is an id that is not in the directory)
 UttList(x, m) == CASE x = 0 -> <<1>> [] x = 1 -> (IF m >= 2 THEN <<m, 1>> ELSE <<1>>) [] x = 2 -> <<m + 1, m>>
                    [] OTHER -> [i \in 1..m |-> i]
 Mod3(x) == x - 3 * (x \div 3)
@@ -226,14 +323,18 @@ SubCases ==     \* (which of ali/ and ref/ exist varies together with the naming
   IF "sub" \notin Fams THEN {}
   ELSE {[nm |-> nm, data |-> d, crit |-> cr, aux |-> SubAux[1 + Mod3(Len(nm.pre) + Len(nm.suf))]] :
           nm \in Namings, d \in UNION {[1..m -> SubLens] : m \in 1..SubUtts}, cr \in SubCrits}
-\* order in which utterances are listed: by id / by (length, id) / by (-length, id)
+       \cup {[nm |-> nm, data |-> d, crit |-> cr, aux |-> SubAux[1 + Mod3(Len(nm.pre) + Len(nm.suf))]] :
+               nm \in IdNamings, d \in [1..SubUtts -> SubLens], cr \in SubCrits}
+\* order in which utterances are listed: by id / by (length, id) / by (-length, id), "by id" being the position in
+\* the directory's listing
 SubOrder(cs0) ==
   LET m == Len(cs0.data)
       k == cs0.crit.kind
-      key(i) == CASE k \in {"first-n", "first-ratio"} -> <<i>>
-                  [] k \in {"last-n", "last-ratio"} -> <<0 - i>>
-                  [] k \in {"shortest-n", "shortest-ratio"} -> <<cs0.data[i], i>>
-                  [] OTHER -> <<0 - cs0.data[i], i>>
+      rk(i) == ListRank(cs0.nm, m, i)
+      key(i) == CASE k \in {"first-n", "first-ratio"} -> <<rk(i)>>
+                  [] k \in {"last-n", "last-ratio"} -> <<0 - rk(i)>>
+                  [] k \in {"shortest-n", "shortest-ratio"} -> <<cs0.data[i], rk(i)>>
+                  [] OTHER -> <<0 - cs0.data[i], rk(i)>>
   IN Values(StableSort([i \in 1..m |-> <<key(i), i>>]))
 SubCount(cs0) ==
   LET m == Len(cs0.data)
@@ -244,6 +345,10 @@ SubChosen(cs0) ==      \* set of utterance indices
   IF cs0.crit.kind = "utt-list"
   THEN {i \in 1..Len(cs0.data) : \E j \in 1..Len(UttList(cs0.crit.num, Len(cs0.data))) : UttList(cs0.crit.num, Len(cs0.data))[j] = i}
   ELSE {SubOrder(cs0)[j] : j \in 1..SubCount(cs0)}
+\* what a listing by FILE NAME would select (exported only to name that mistake when it is observed)
+SubChosenByFile(cs0) ==
+  IF cs0.crit.kind \notin {"first-n", "first-ratio"} THEN SubChosen(cs0)
+  ELSE {Restrict(FileOrderT[cs0.nm], 1..Len(cs0.data))[j] : j \in 1..SubCount(cs0)}
 \* which utterances have ali / ref files in the source
 SubHas(cs0, sub, i) ==
   CASE sub = "feat" -> TRUE
@@ -453,18 +558,33 @@ TgInverse == (fam = "tg" /\ First) =>
      IN /\ WithinOneFrame(tr, BackTimes(TgBackRows(rows), cs.shift), cs.shift)
         /\ (TgKind(tr) = "interval" /\ \A k \in 1..Len(tr) : tr[k].d > 0) => TgMethod(rows) = 1
         /\ TgKind(tr) = "point" => TgMethod(rows) = 2
-\* error rate: batching changes nothing
-ErBatchFree == (fam = "er" /\ First) => ErBatched(cs, 1, Zero3) = <<ErTotLo(cs), ErTotHi(cs), ErTotLen(cs)>>
+\* error rate: walking the two listings in step keeps exactly the utterances that are in both directories, in id order
+ErMergeOK == (fam = "er" /\ First) =>
+  LET mg == ErMerge(cs.nm, ErListed(cs, "ref"), ErListed(cs, "hyp"), 1)
+  IN mg[1] = mg[2] /\ mg[1] = Restrict(IdOrderT[cs.nm], ErBoth(cs))
+\* ... and batching changes nothing: the totals are those over that set
+ErBatchFree == (fam = "er" /\ First) =>
+  \E K \in {ErKept(cs)}, F \in {ErFigures(cs)} :
+     /\ ErBatched(cs.opt.bs, K, F, 1, Zero3) = ErTotals(K, F)
+     /\ ErBatched(cs.opt.bs, K, F, 1, Zero3) = ErDeclTotals(cs, F)
 ErUniformExact == (fam = "er" /\ First /\ cs.opt.costs[1] = cs.opt.costs[2] /\ cs.opt.costs[2] = cs.opt.costs[3]) =>
-  ErTotLo(cs) = ErTotHi(cs)
+  \E F \in {ErFigures(cs)} : \A i \in 1..Len(cs.data) : F[i][1] = F[i][2]
 \* subsets: the right number of distinct utterances, all from the source
+\* ("first / last by id": every chosen id is smaller / greater AS A STRING than every id left behind; among equal
+\* lengths the smaller id goes first)
 SubOK == (fam = "sub" /\ First) =>
-  /\ SubChosen(cs) \subseteq 1..Len(cs.data)
-  /\ cs.crit.kind # "utt-list" => Cardinality(SubChosen(cs)) = SubCount(cs)
-  /\ cs.crit.kind \in {"shortest-n", "shortest-ratio"} =>
-       \A i \in SubChosen(cs) : \A j \in (1..Len(cs.data)) \ SubChosen(cs) : cs.data[i] <= cs.data[j]
-  /\ cs.crit.kind \in {"longest-n", "longest-ratio"} =>
-       \A i \in SubChosen(cs) : \A j \in (1..Len(cs.data)) \ SubChosen(cs) : cs.data[i] >= cs.data[j]
+  LET rest == (1..Len(cs.data)) \ SubChosen(cs)
+      id(i) == cs.nm.utts[i]
+  IN /\ SubChosen(cs) \subseteq 1..Len(cs.data)
+     /\ cs.crit.kind # "utt-list" => Cardinality(SubChosen(cs)) = SubCount(cs)
+     /\ cs.crit.kind \in {"first-n", "first-ratio"} => \A i \in SubChosen(cs) : \A j \in rest : StrLess(id(i), id(j))
+     /\ cs.crit.kind \in {"last-n", "last-ratio"} => \A i \in SubChosen(cs) : \A j \in rest : StrLess(id(j), id(i))
+     /\ cs.crit.kind \in {"shortest-n", "shortest-ratio"} =>
+          \A i \in SubChosen(cs) : \A j \in rest : cs.data[i] < cs.data[j] \/ (cs.data[i] = cs.data[j] /\ StrLess(id(i), id(j)))
+     /\ cs.crit.kind \in {"longest-n", "longest-ratio"} =>
+          \A i \in SubChosen(cs) : \A j \in rest : cs.data[i] > cs.data[j] \/ (cs.data[i] = cs.data[j] /\ StrLess(id(i), id(j)))
+\* the universes in which the two orders part are met (and the basic namings are not among them)
+IdUniverse == First => ((cs.nm \in IdNamings) <=> OrdersDiffer(cs.nm))
 \* subrun: after every run that did not raise, whatever the order of its utterances: the requested files are
 \* there and read as the source does now; nothing is there that no run requested
 SubRunAtRest == fam = "subrun" /\ ~dst.busy /\ dst.run > 0 /\ ~SubRaised
@@ -493,8 +613,10 @@ TypeOK == fam \in Fams /\ clobber \in BOOLEAN
 Emit(rec) == PrintT(<<"VFJ", ToJson(rec)>>)
 SetToSeq(S) == LET RECURSIVE F(_) F(T) == IF T = {} THEN <<>> ELSE LET x == CHOOSE y \in T : TRUE IN <<x>> \o F(T \ {x}) IN F(S)
 Names(m) == [i \in 1..m |-> Name(cs.nm, i)]
-Common == [fam |-> fam, pre |-> cs.nm.pre, suf |-> cs.nm.suf, utts |-> [i \in 1..Len(cs.data) |-> UttNames[i]],
-           names |-> Names(Len(cs.data)), distractors |-> SetToSeq(Distractors(cs.nm)), data |-> cs.data]
+Common == [fam |-> fam, pre |-> cs.nm.pre, suf |-> cs.nm.suf, dir |-> cs.nm.dir,
+           utts |-> [i \in 1..Len(cs.data) |-> cs.nm.utts[i]],
+           names |-> Names(Len(cs.data)), distractors |-> SetToSeq(Distractors(cs.nm)), data |-> cs.data,
+           idorder |-> Restrict(IdOrderT[cs.nm], 1..Len(cs.data)), fileorder |-> Restrict(FileOrderT[cs.nm], 1..Len(cs.data))]
 Export ==
   (First /\ c = MinOf(Cs) /\ W = MinOf(Ws) /\ mode = CHOOSE m \in PModes : TRUE) =>
     CASE fam = "ali" ->
@@ -518,16 +640,20 @@ Export ==
                            method |-> [i \in 1..Len(cs.data) |-> TgMethod(Rows(cs.data[i], cs.shift))],
                            back |-> [i \in 1..Len(cs.data) |-> BackTimes(TgBackRows(Rows(cs.data[i], cs.shift)), cs.shift)]])
       [] fam = "er" ->
-           Emit(Common @@ [costs |-> cs.opt.costs, bs |-> cs.opt.bs, rep |-> cs.opt.rep, ign |-> SetToSeq(cs.opt.ign),
-                           dist |-> cs.opt.dist, perutt |-> cs.opt.perutt, defined |-> ErDefined(cs),
-                           lo |-> [i \in 1..Len(cs.data) |-> ErRange(cs, i)[1]],
-                           hi |-> [i \in 1..Len(cs.data) |-> ErRange(cs, i)[2]],
-                           reflen |-> [i \in 1..Len(cs.data) |-> Len(ErRef(cs, i))],
-                           totlo |-> ErTotLo(cs), tothi |-> ErTotHi(cs), totlen |-> ErTotLen(cs)])
+           \E K \in {ErKept(cs)}, F \in {ErFigures(cs)} :
+             Emit(Common @@ [costs |-> cs.opt.costs, bs |-> cs.opt.bs, rep |-> cs.opt.rep, ign |-> SetToSeq(cs.opt.ign),
+                             dist |-> cs.opt.dist, perutt |-> cs.opt.perutt, defined |-> ErDefined(cs, F),
+                             warn |-> cs.warn, inref |-> [i \in 1..Len(cs.data) |-> i \notin cs.miss.ref],
+                             inhyp |-> [i \in 1..Len(cs.data) |-> i \notin cs.miss.hyp], kept |-> K,
+                             lo |-> [i \in 1..Len(cs.data) |-> F[i][1]],
+                             hi |-> [i \in 1..Len(cs.data) |-> F[i][2]],
+                             reflen |-> [i \in 1..Len(cs.data) |-> F[i][3]],
+                             totlo |-> ErTotals(K, F)[1], tothi |-> ErTotals(K, F)[2], totlen |-> ErTotals(K, F)[3]])
       [] fam = "sub" ->
            Emit(Common @@ [crit |-> cs.crit, aux |-> cs.aux, list |-> UttList(cs.crit.num, Len(cs.data)),
-                           listnames |-> [j \in 1..Len(UttList(cs.crit.num, Len(cs.data))) |-> UttNames[UttList(cs.crit.num, Len(cs.data))[j]]],
+                           listnames |-> [j \in 1..Len(UttList(cs.crit.num, Len(cs.data))) |-> cs.nm.utts[UttList(cs.crit.num, Len(cs.data))[j]]],
                            chosen |-> SetToSeq(SubChosen(cs)),
+                           byfile |-> SetToSeq(SubChosenByFile(cs)),
                            files |-> SetToSeq({<<x[1], x[2]>> : x \in ExpectedFiles(fam, cs)}),
                            has |-> [i \in 1..Len(cs.data) |-> [s \in {"feat", "ali", "ref"} |-> SubHas(cs, s, i)]]])
       [] fam = "subrun" ->
